@@ -70,7 +70,7 @@ def unit_props(unit):
     return props
 
 
-def run_unit(unit, defines=None, vacuity=False, rlimit=None, seed=None, tag='main', multiple_errors=20):
+def run_unit(unit, defines=None, vacuity=False, rlimit=None, seed=None, tag='main', multiple_errors=20, only_fn=None):
     """Assemble and verify one unit. Returns a result dict; never raises for proof failures."""
     os.makedirs(BUILD, exist_ok=True)
     t0 = time.time()
@@ -92,6 +92,8 @@ def run_unit(unit, defines=None, vacuity=False, rlimit=None, seed=None, tag='mai
     cmd = [VERUS, fname, '--output-json', '--time-expanded', '--multiple-errors', str(multiple_errors), '--error-format=json']
     if rlimit:
         cmd += ['--rlimit', str(rlimit)]
+    if only_fn:
+        cmd += ['--verify-function', only_fn, '--verify-root']
     if seed:
         cmd += ['-V', 'rand-seed=%d' % seed] if False else []
     res['cmd'] = ' '.join(cmd)
@@ -278,13 +280,17 @@ if __name__ == '__main__':
     if len(sys.argv) >= 3 and sys.argv[1] == 'unit':
         defines = {}
         vac = False
+        only = None
         for a in sys.argv[3:]:
+            if a.startswith('fn='):
+                only = a[3:]
+                continue
             if a == '--vacuity':
                 vac = True
             elif '=' in a:
                 k, v = a.split('=')
                 defines[k] = v
-        r = run_unit(sys.argv[2], defines=defines, vacuity=vac, tag='dev')
+        r = run_unit(sys.argv[2], defines=defines, vacuity=vac, tag='dev', only_fn=only)
         print('status', r['status'], 'verified', r['verified'], 'errors', r['errors'], 'smt_ms', r['smt_ms'], 'wall %.1fs' % r['wall_s'])
         for e in r['tool_errors']:
             print('TOOL:', e)
